@@ -14,14 +14,19 @@ import shutil
 
 import vlib
 
-PROPERTIES = ["C13"]
+PROPERTIES = ["C13", "C11"]  # C11 only through C11_Halt: a panic escaping a block phase while replaying
 
 # deviations of the UNCHANGED tree from the statement that were confirmed on the real code
 # (known_findings.json); the strict lane replays the model with these switched on
-DEV_CURRENT = ["L6", "L7", "L27"]
+ALL_DEVS = ["L6", "L7", "L27"]
+DEV_CURRENT = ["L7"]
 if os.environ.get("VERIF_ORACLEADM_DEV") is not None:
-    # e.g. after applying fix patches: VERIF_ORACLEADM_DEV=L7 makes the strict lane expect the repaired behaviour
+    # e.g. a tree with fix-F-ORA-L27.patch applied: VERIF_ORACLEADM_DEV=L7 makes the strict lane expect the repaired
+    # behaviour (permanent switch: tools/oracleadm_mark_fixed.py)
     DEV_CURRENT = [x for x in os.environ["VERIF_ORACLEADM_DEV"].split(",") if x]
+# deviations repaired in the repository (known_findings.json "fixed"): the model keeps the switch, and the guard run
+# in _mc still demands that the model WITH the deviation violates C13 (the tag that would catch a regression is alive)
+DEV_FIXED = [x for x in ALL_DEVS if x not in DEV_CURRENT]
 
 BASE = {"vals": ["v1", "v2", "v3"], "power": {"v1": 2, "v2": 1, "v3": 1}, "others": ["a1"], "thA": 2, "thB": 3, "dev": DEV_CURRENT}
 WORLDS = {
@@ -41,6 +46,7 @@ TAG_UNIVERSE = {
     "C13": ["C13_AdmitNonValidator", "C13_AdmitPubKeyMismatch", "C13_AdmitBadSig", "C13_AdmitTooLarge", "C13_AdmitClosedRound",
             "C13_AdmitBadNonce", "C13_OverLimit", "C13_CountBadBase", "C13_CountBadSource", "C13_CountBadDecimal",
             "C13_CountFutureTs", "C13_CountDupDet", "C13_RejectedButChanged", "C13_NotCountedChangedMore", "C13_AlienNonceEntry"],
+    "C11": ["C11_Halt"],
 }
 
 DG_KEYS = ["kv", "ora", "oraRest", "ckv", "cora", "coraRest", "mem", "memFull"]
@@ -71,12 +77,12 @@ def _mc(d, tier, res):
     # violate C13 with the tag the finding is filed under
     expect = {"L6": "C13_AdmitBadSig", "L7": "C13_NotCountedChangedMore", "L27": "C13_AdmitNonValidator"}
     res["dev_model_checks"] = []
-    for dev in DEV_CURRENT:
+    for dev in DEV_CURRENT + [x for x in DEV_FIXED if x not in DEV_CURRENT]:
         m = vlib.tlc_mc(dm, "MC_OracleAdm_q.tla", f"MC_OracleAdm_dev{dev}.cfg", timeout=1200)
         got = sorted(set(re.findall(r"C13_\w+", "".join(re.findall(r"viol = \{[^}]*\}", m["out"])))))
         if "InvC13" not in m["violated"] or expect[dev] not in got:
             raise vlib.Infra(f"MC_OracleAdm_dev{dev}.cfg: the model with DEV = {{{dev}}} does not violate InvC13 with {expect[dev]} (got {got}): vacuous known finding")
-        res["dev_model_checks"].append({"dev": dev, "violated": m["violated"], "tags": got, "states": m["states"]})
+        res["dev_model_checks"].append({"dev": dev, "in_current_tree": dev in DEV_CURRENT, "violated": m["violated"], "tags": got, "states": m["states"]})
 
 
 def _kind(a):
@@ -123,7 +129,7 @@ def _validate(harness, d, name, wname, w, behs, seed, res, counts, logs, distinc
                 counts["Tx:deliver:failed-but-round-closed-in-memory"] += 1
     for ln in lines:
         if ln.get("halt"):
-            raise vlib.Infra("unrecovered panic while replaying (chain halt): " + str(ln.get("err"))[:500])
+            counts["HALT"] += 1  # reported through the C11_Halt tag of the trace spec
         if ln["ev"] == "Tx":
             if not ln.get("build"):
                 raise vlib.Infra("harness could not build a generated tx: " + str(ln.get("err")))
@@ -139,7 +145,7 @@ def _validate(harness, d, name, wname, w, behs, seed, res, counts, logs, distinc
         ln = lines[li]
         t["world"] = wname
         t["behaviour"] = json.loads(behs[b])
-        t["observed"] = {k: ln.get(k) for k in ("ev", "a", "res", "code", "codespace", "log", "gasWanted", "gasUsed", "priority")}
+        t["observed"] = {k: ln.get(k) for k in ("ev", "a", "res", "code", "codespace", "log", "err", "halt", "gasWanted", "gasUsed", "priority")}
         if t["observed"].get("log"):
             t["observed"]["log"] = t["observed"]["log"][:300]
         t["height"] = ln["st"]["h"]
